@@ -1505,6 +1505,30 @@ func (e *Engine) evalCall(ctx *EvalCtx, x *Expr) (Val, error) {
 			return r, nil
 		}
 		return Val{}, fmt.Errorf("store(array ghost, index, value)")
+	case "exactLT", "exactLE":
+		// exact mathematical comparison of two numbers of possibly different kinds (integer vs float): via reals
+		vs, err := args()
+		if err != nil {
+			return Val{}, err
+		}
+		if len(vs) != 2 {
+			return Val{}, fmt.Errorf("%s(a, b)", name)
+		}
+		toReal := func(v Val) string {
+			srt := e.valSort(v)
+			switch {
+			case srt == fp64 || srt == fp32:
+				return "(fp.to_real " + v.S + ")"
+			case strings.HasPrefix(srt, "(_ BitVec"):
+				return "(to_real (bv2nat " + v.S + "))"
+			}
+			return "(to_real " + v.S + ")"
+		}
+		op := "<"
+		if name == "exactLE" {
+			op = "<="
+		}
+		return boolVal(fmt.Sprintf("(%s %s %s)", op, toReal(vs[0]), toReal(vs[1]))), nil
 	case "disjoint":
 		// the two slices live in different backing arrays (or one of them is nil)
 		vs, err := args()
